@@ -234,6 +234,8 @@ func (ev *Evidence) write() error {
 	dir := filepath.Join(verifDir, "evidence")
 	if d := os.Getenv("GOSYM_EVIDENCE_DIR"); d != "" {
 		dir = d // development runs (seeded changes, race builds) must not touch the committed evidence
+	} else if os.Getenv("GOSYM_UNITS") != "" {
+		dir = "/tmp/.evidence.partial" // a partial run never describes the registered check
 	}
 	if err := os.MkdirAll(dir, 0o755); err != nil {
 		return err
